@@ -40,17 +40,64 @@ class FnPtr(object):
 
 
 class PInt(object):
-    __slots__ = ('p',)
+    """a pointer-derived integer: sum of coeff*address(obj) + off (64-bit).  The common case is one object
+    with coefficient 1 (plain ptrtoint); differences, negations (~p = -p-1) and sums arise from compiler-
+    generated address arithmetic and cancel back to plain integers."""
+    __slots__ = ('co', 'off')
 
-    def __init__(s, p): s.p = p
-    def __repr__(s): return 'PInt(%r)' % (s.p,)
+    def __init__(s, p=None, co=None, off=0):
+        if p is not None:
+            if p.__class__ is Ptr:
+                s.co = ((p.obj, 1),); s.off = p.off
+            else:
+                s.co = ((p, 1),); s.off = 0
+        else:
+            s.co = co; s.off = off
+
+    @property
+    def p(s):
+        if len(s.co) == 1 and s.co[0][1] == 1:
+            o = s.co[0][0]
+            if o.__class__ is int: return Ptr(o, s.off)
+            return o          # FnPtr
+        raise Inconclusive("integer built from several addresses used as a pointer: %r" % (s,))
+
+    def __repr__(s): return 'PInt(%r,%r)' % (s.co, s.off)
+
+
+def pint_lin(a, b, ka, kb):
+    """ka*a + kb*b where a, b are PInt or plain 64-bit ints/terms; returns PInt or int/term"""
+    co = {}
+    off = 0
+    for x, k in ((a, ka), (b, kb)):
+        if x.__class__ is PInt:
+            for o, c in x.co:
+                if o == 0: continue       # the null object has address 0
+                co[o] = co.get(o, 0) + c * k
+            xo = x.off
+        else:
+            xo = x
+        if xo.__class__ is int:
+            if off.__class__ is int: off = off + k * xo
+            else: off = off + (k * xo)
+        else:
+            off = off + (xo if k == 1 else -xo if k == -1 else xo * k)
+    if off.__class__ is int:
+        off &= (1 << 64) - 1
+        if off >> 63: off -= 1 << 64
+    co = tuple(sorted(((o, c) for o, c in co.items() if c != 0), key=lambda t: (str(type(t[0])), str(t[0]))))
+    if not co:
+        return off & ((1 << 64) - 1) if off.__class__ is int else off
+    return PInt(co=co, off=off)
 
 
 class Undef(object):
-    __slots__ = ('w',)
+    """indeterminate value; mem=True: read from uninitialised memory (a branch/address on it ends the path as an
+    'uninit' finding), mem=False: undef/poison/unmodelled arithmetic (materialised as an unconstrained value)"""
+    __slots__ = ('w', 'mem')
 
-    def __init__(s, w): s.w = w
-    def __repr__(s): return 'undef%d' % s.w
+    def __init__(s, w, mem=False): s.w = w; s.mem = mem
+    def __repr__(s): return 'undef%d%s' % (s.w, 'm' if s.mem else '')
 
 
 class Agg(list):
